@@ -12,7 +12,8 @@ if b is None:
     print(err)
     sys.exit(1)
 g = translate.generate_all(b)
-if g["failures"]:
-    print("translator failures:", g["failures"])
+for name, grp in g["groups"].items():
+    if grp["failures"]:
+        print("translator failures (%s):" % name, grp["failures"])
 r = subprocess.run(["lake", "build", "RelicVerif", "driver"], cwd=LEAN)
 sys.exit(r.returncode)
